@@ -15,6 +15,7 @@ func init() { register("C16", checkC16) }
 
 func checkC16(c *Ctx) {
 	r := c.R
+	r.Rule("R15.3", "(shared with C15) a log/slog record keeps its own instant: Handle hands the record to WriteThru (the package's loggers implement LogSlogAware) with the record's time")
 	r.Rule("R11.3", "(shared with C11) the zone and layout in force are the emitting logger's own: setentry copies them from that logger on every path, never from its owner")
 	r.Rule("R10.4", "(shared with C10) a With-form's child is its own logger: anonymous, or named by a term over every argument (WithUTCMode(true) and WithUTCMode(false) never return the same child)")
 	r.Rule("R10.3", "(shared with C10) a layout or zone given as a New(...) option is applied whatever its position: every element of the argument list is offered to the option test")
@@ -43,6 +44,7 @@ func checkC16(c *Ctx) {
 		c09Pooled(c, p, m, "R16.4", feasibleModes)
 		c10WithSet(c, p, m)
 		optionsInOrder(c, p, "R10.3")
+		c15Handler(c, p, m)
 		c11Encoder(c, p, m)
 		freshChildren(c, p, m, "R10.4", nil)
 	}
@@ -124,6 +126,30 @@ func c16Timestamp(c *Ctx, p *Prog, m *Model) {
 					}
 				}
 			}
+			// a setting that did not exist when the rules were written (a field of the encoder unknown to the anchor record),
+			// compared with its zero value: judged at its default, where it cannot change what the property describes
+			if base, _, fv, isF := fieldLoad(strip(x.X)); isF && typeName(base.Type()) == "PrintCtx" && (x.Op == token.EQL || x.Op == token.NEQ) {
+				ref := loadAnchorRef()
+				if ref != nil && ref["field|slog|PrintCtx|"+nm(fv)] == nil {
+					isZero := isNilConst(x.Y)
+					if k, isC := x.Y.(*ssa.Const); isC && k.Value != nil {
+						switch k.Value.Kind() {
+						case constant.Int:
+							isZero = constant.Sign(k.Value) == 0
+						case constant.String:
+							isZero = constant.StringVal(k.Value) == ""
+						case constant.Bool:
+							isZero = !constant.BoolVal(k.Value)
+						}
+					}
+					if isZero {
+						if x.Op == token.EQL {
+							return "newzero", true
+						}
+						return "!newzero", true
+					}
+				}
+			}
 			if b, ok := isFieldLoadOf(x.X, "PrintCtx", "layout"); ok && res(b) == ssa.Value(receiver(at)) {
 				if s, ok := constString(x.Y); ok && s == "" {
 					if x.Op == token.NEQ {
@@ -178,8 +204,10 @@ func c16Timestamp(c *Ctx, p *Prog, m *Model) {
 		for k := range subst {
 			delete(subst, k)
 		}
+		a["newzero"] = true
 		t := walkDecisionInl(at.Blocks[0], a, negAware(a, atomize), nil, inline, subst, 0)
 		cleanNeg(a)
+		delete(a, "newzero")
 		if t.Kind != "return" {
 			r.Bad("R16.1", "zone["+assignStr(a)+"]", p.FuncPos(at), "the timestamp depends on a condition outside the property (%s)", t.Kind)
 			continue
@@ -387,6 +415,35 @@ func c16Timestamp(c *Ctx, p *Prog, m *Model) {
 			}
 		}
 		r.Check(ok, "R16.4", "Entry.SetTimeFormat", p.FuncPos(st), "stores the layout given", "SetTimeFormat does not store the layout given")
+		// ... as it was given: the value stored is an element of the argument list itself, not the result of a string
+		// function applied to it (trimming a layout changes the text printed around the time)
+		for _, fs := range fieldStores(st) {
+			if fs.Field != "timeLayout" || fs.Base != ssa.Value(receiver(st)) {
+				continue
+			}
+			var through []string
+			seen := map[ssa.Value]bool{}
+			var walk func(v ssa.Value, d int)
+			walk = func(v ssa.Value, d int) {
+				if v == nil || seen[v] || d > 8 {
+					return
+				}
+				seen[v] = true
+				switch x := v.(type) {
+				case *ssa.Phi:
+					for _, e := range x.Edges {
+						walk(e, d+1)
+					}
+				case *ssa.Call:
+					if cal := calleeOf(x); cal != nil && cal.Pkg != nil && (cal.Pkg.Pkg.Path() == "strings" || cal.Pkg.Pkg.Path() == "bytes") && dependsOnParam(x, st.Params[1]) {
+						through = append(through, cal.String()+" at "+p.Pos(instrPos(x)))
+					}
+				}
+			}
+			walk(strip(fs.Val), 0)
+			r.Check(len(through) == 0, "R16.4", "Entry.SetTimeFormat:as-given", p.Pos(instrPos(fs.Instr)), "the layout stored is an element of the argument list itself",
+				"the layout stored went through "+strings.Join(dedupStr(through), ", ")+": a layout with leading or trailing blanks (or other text the function changes) is not the one the logger prints with, and the text no longer parses with the layout that was set")
+		}
 		// ... whatever it looks like: the only test applied to a candidate is "not empty" (a plausibility filter on the
 		// layout text rejects layouts of coarse precision or unusual elements that time.Format handles fine)
 		{
